@@ -68,6 +68,8 @@ type c38Scenario struct {
 	Legacy bool // an address is pre-allocated under the workload-id handle (a v2.x-upgrade leftover)
 	Full4  bool // the IPv4 pool is completely used by other containers
 	Full6  bool // the IPv6 pool is completely used by other containers
+	Left4  int  // with Full4: that many IPv4 addresses are left free after all
+	Left6  int  // with Full6: that many IPv6 addresses are left free after all
 	Pool4  string
 	BS4    int
 	Pool6  string
@@ -96,6 +98,12 @@ func c38Scenarios() []c38Scenario {
 			Quick: []c38Pass{P(4, 2, 1)}, Thorough: []c38Pass{P(5, 2, 1), P(4, 0, 1), P(3, 1, 2)}},
 		{Name: "k8s-dual-v4full", K8s: true, V4: true, V6: true, Full4: true, Legacy: true, Pool4: "10.0.0.0/31", BS4: 31, Pool6: "fd00::/126", BS6: 127,
 			Quick: []c38Pass{P(4, 1, 1), P(3, 2, 1)}, Thorough: []c38Pass{P(5, 1, 1), P(4, 2, 1), P(3, 1, 2)}},
+		// exactly one address of a family left: the first dual-stack ADD of a container succeeds, a second ADD for
+		// the same container (same handle) or for another one gets a half success and must roll back only its own address
+		{Name: "k8s-dual-v6-one-left", K8s: true, V4: true, V6: true, Full6: true, Left6: 1, Pool4: "10.0.0.0/30", BS4: 31, Pool6: "fd00::/127", BS6: 127,
+			Quick: []c38Pass{P(4, 1, 1), P(3, 2, 1), P(5, 0, 0)}, Thorough: []c38Pass{P(5, 1, 1), P(4, 2, 1), P(3, 1, 2)}},
+		{Name: "cni-dual-v4-one-left", V4: true, V6: true, Full4: true, Left4: 1, Pool4: "10.0.0.0/31", BS4: 31, Pool6: "fd00::/126", BS6: 127,
+			Quick: []c38Pass{P(4, 1, 1), P(3, 2, 1), P(5, 0, 0)}, Thorough: []c38Pass{P(5, 1, 1), P(4, 2, 1), P(3, 1, 2)}},
 		{Name: "cni-v4-legacy", V4: true, Legacy: true, Pool4: "10.0.0.0/30", BS4: 31, Thorough: []c38Pass{P(5, 1, 1), P(4, 2, 1)}},
 		{Name: "cni-v6", V6: true, Pool6: "fd00::/126", BS6: 127, Thorough: []c38Pass{P(5, 1, 1), P(4, 2, 1)}},
 		{Name: "cni-v4-blocks-of-4", V4: true, Pool4: "10.0.0.0/29", BS4: 30, Thorough: []c38Pass{P(5, 1, 1), P(4, 2, 1)}},
@@ -603,14 +611,18 @@ func c38Template(sc *c38Scenario, lock string) ([]casstore.Item, error) {
 	}
 	// exhaust a family's pool on behalf of other containers, directly through the IPAM client (so
 	// that set-up does not depend on how the plugin under test reports exhaustion)
-	fill := func(v4 bool) error {
+	fill := func(v4 bool, leave int) error {
 		w := c38NewWorld(items)
 		defer w.close()
 		cfg := apiconfig.NewCalicoAPIConfig()
 		cfg.Spec.DatastoreType = apiconfig.EtcdV3
 		ic := client.NewFromBackend(*cfg, w.store).IPAM()
+		var used []string
 		for i := 0; i < 20; i++ {
 			h := c38Net + ".other" + strconv.Itoa(i)
+			if !v4 {
+				h += "v6"
+			}
 			a := ipam.AutoAssignArgs{HandleID: &h, Hostname: c38Node, IntendedUse: v3.IPPoolAllowedUseWorkload}
 			if v4 {
 				a.Num4 = 1
@@ -628,20 +640,26 @@ func c38Template(sc *c38Scenario, lock string) ([]casstore.Item, error) {
 			if r6 != nil {
 				got += len(r6.IPs)
 			}
-			if got == 0 {
+			if got == 0 { // pool exhausted
+				for j := 0; j < leave && j < len(used); j++ {
+					if err := ic.ReleaseByHandle(context.Background(), used[len(used)-1-j]); err != nil {
+						return fmt.Errorf("set-up: freeing an address again failed: %v", err)
+					}
+				}
 				items = w.store.Snapshot("")
-				return nil // pool exhausted
+				return nil
 			}
+			used = append(used, h)
 		}
 		return fmt.Errorf("set-up: pool never filled up")
 	}
 	if sc.Full4 {
-		if err := fill(true); err != nil {
+		if err := fill(true, sc.Left4); err != nil {
 			return nil, err
 		}
 	}
 	if sc.Full6 {
-		if err := fill(false); err != nil {
+		if err := fill(false, sc.Left6); err != nil {
 			return nil, err
 		}
 	}
@@ -653,6 +671,7 @@ func c38Template(sc *c38Scenario, lock string) ([]casstore.Item, error) {
 type c38State struct {
 	items  []casstore.Item
 	delOK  map[string]bool   // container -> its last command was a DEL that returned nil
+	held   map[string]bool   // container -> an ADD returned nil and no DEL has been attempted since
 	prov   map[string]string // "handle|ip" -> which command execution allocated it
 	faulty int               // commands of the history that ran with an injected fault
 	parent *c38State
@@ -676,7 +695,14 @@ func (s *c38State) key() string {
 		}
 	}
 	sort.Strings(ks)
-	return c38Canon(s.items) + "delOK=" + strings.Join(ks, ",") + " faulty=" + strconv.Itoa(s.faulty)
+	var hs []string
+	for k, v := range s.held {
+		if v {
+			hs = append(hs, k)
+		}
+	}
+	sort.Strings(hs)
+	return c38Canon(s.items) + "delOK=" + strings.Join(ks, ",") + " held=" + strings.Join(hs, ",") + " faulty=" + strconv.Itoa(s.faulty)
 }
 
 type c38Fail struct {
@@ -700,12 +726,15 @@ func c38Step(sc *c38Scenario, s *c38State, r, base *c38Run, limitFaulty bool) (*
 	allocs := c38Allocs(r.Items)
 	cid, wid := sc.cidHandle(c), sc.widHandle(c)
 	fc := r.faultClass()
-	n := &c38State{items: r.Items, delOK: map[string]bool{}, prov: map[string]string{}, parent: s, ev: r.label(), depth: s.depth + 1, faulty: s.faulty}
+	n := &c38State{items: r.Items, delOK: map[string]bool{}, held: map[string]bool{}, prov: map[string]string{}, parent: s, ev: r.label(), depth: s.depth + 1, faulty: s.faulty}
 	if r.nFaults() > 0 && limitFaulty {
 		n.faulty++
 	}
 	for k, v := range s.delOK {
 		n.delOK[k] = v
+	}
+	for k, v := range s.held {
+		n.held[k] = v
 	}
 	for _, a := range allocs {
 		k := a.Handle + "|" + a.IP
@@ -726,6 +755,7 @@ func c38Step(sc *c38Scenario, s *c38State, r, base *c38Run, limitFaulty bool) (*
 	case "ADD":
 		n.delOK[c] = false
 		if r.Err == nil {
+			n.held[c] = true
 			for _, f := range []struct {
 				want bool
 				fam  int
@@ -800,6 +830,54 @@ func c38Step(sc *c38Scenario, s *c38State, r, base *c38Run, limitFaulty bool) (*
 			})
 		}
 		n.delOK[c] = r.Err == nil
+		n.held[c] = false // a DEL was attempted: whatever it freed, it was entitled to
+	}
+	// State invariant: a container that got a successful ADD and has not been the subject of a DEL
+	// since keeps holding an address of every requested family, whatever other commands (a further ADD
+	// for the same container included) do and however they fail.
+	var hc []string
+	for k, v := range n.held {
+		if v && !(k == c && r.Cmd.Op == "ADD" && r.Err == nil) { // that case is the clause checked above
+			hc = append(hc, k)
+		}
+	}
+	sort.Strings(hc)
+	for _, k := range hc {
+		for _, f := range []struct {
+			want bool
+			fam  int
+		}{{sc.V4, 4}, {sc.V6, 6}} {
+			if !f.want {
+				continue
+			}
+			count := func(items []c38Alloc) int {
+				x := 0
+				for _, a := range items {
+					if a.Handle == sc.cidHandle(k) && a.Fam == f.fam {
+						x++
+					}
+				}
+				return x
+			}
+			if count(allocs) > 0 || count(c38Allocs(s.items)) == 0 {
+				continue // still held, or already reported when it was lost
+			}
+			who := "other"
+			if k == c {
+				who = "same"
+			}
+			bc := fc
+			if len(r.Decs) == 0 {
+				bc = "any"
+			} else if base != nil && base.Panic == "" && count(c38Allocs(base.Items)) == 0 {
+				bc = "any" // the fault-free execution of the command loses it as well
+			}
+			fails = append(fails, c38Fail{
+				Key: fmt.Sprintf("C38:held-address-lost:ipv%d:by=%s(%s-container):%s:%s", f.fam, r.Cmd.Op, who, c38Outcome(r.Err), bc),
+				Msg: fmt.Sprintf("container %s had a successful ADD and no DEL since, but after %s (result %s) its handle %q holds no IPv%d address any more; allocations now: %v",
+					k, r.label(), c38Outcome(r.Err), sc.cidHandle(k), f.fam, allocs),
+			})
+		}
 	}
 	return n, fails, out
 }
@@ -814,7 +892,7 @@ type c38Params struct {
 }
 
 func c38Explore(c *vk.Ctx, sc *c38Scenario, init []casstore.Item, p c38Params, locks []string, reps int, sampled *atomic.Bool) (states, trans int64, complete bool) {
-	root := &c38State{items: init, delOK: map[string]bool{}, prov: map[string]string{}}
+	root := &c38State{items: init, delOK: map[string]bool{}, held: map[string]bool{}, prov: map[string]string{}}
 	for _, a := range c38Allocs(init) {
 		root.prov[a.Handle+"|"+a.IP] = "set-up"
 	}
@@ -975,7 +1053,7 @@ func TestVerif_C38(t *testing.T) {
 					c.ToolError(err.Error())
 					return
 				}
-				s := &c38State{items: items, delOK: map[string]bool{}, prov: map[string]string{}}
+				s := &c38State{items: items, delOK: map[string]bool{}, held: map[string]bool{}, prov: map[string]string{}}
 				for _, a := range c38Allocs(items) {
 					s.prov[a.Handle+"|"+a.IP] = "set-up"
 				}
@@ -1023,7 +1101,7 @@ func TestVerif_C38(t *testing.T) {
 		c.Rule("per scenario (single/dual stack, k8s / plain CNI args, legacy workload-id allocation, one family's pool full; pools of 2 blocks x 2 addresses): breadth-first search over datastore states; " +
 			"from every state every command of {ADD(c1), DEL(c1), ADD(c2)" + map[bool]string{true: ", DEL(c2)", false: ""}[c.Thorough()] + "} is executed under every decision list " +
 			"(each backend call: proceed | error before | lost reply after a write | genuine CAS conflict; every order of ReleaseByHandle's loop over the handle's blocks); each scenario is searched in several passes " +
-			"(histories<=D, at most F commands of a history run with faults, at most N faults per command), e.g. quick cni-v4: (5,1,1) and (4,2,1); the `enum` lines of the run list them; " +
+			"(histories<=D, at most F commands of a history run with faults (0: any number), at most N faults per command), e.g. quick cni-v4: (5,1,1) and (4,2,1); the `enum` lines of the run list them; " +
 			"states merged on the canonical IPAM store content. Non-trivial = an execution with a fault or a non-default order, counted by (scenario, command, what the fault hit, outcome).")
 		c.Assume("casstore behaves like the etcd/Kubernetes backends (per-key compare-and-swap, JSON value boundary); connection set-up in utils.CreateClient is replaced by a client over it")
 		c.Assume("one CNI command at a time on the node (the plugin's host-wide IPAM lock); IPCooldownSeconds=0 (default); no KubeVirt pods, no ipAddrs/IP= CNI argument, no namespace lookups")
